@@ -476,6 +476,8 @@ def _memconf(tier):
         "async-read,write-capable": ((8, 4, [1, 2, 3, 4], [dict(write_capable=True, async_read=True)]), [r"Read: Async \| Write: Sync", r"assign dat_r = mem\[adr\];"]),
         "async-read,write-capable,gran2,no-init": ((8, 4, None, [dict(write_capable=True, async_read=True, we_granularity=2)]), [r"Read: Async \| Write: Sync", r"mem\[adr\]\[7:6\] <= dat_w\[7:6\]"]),
         "width10,gran4 (two top bits have no enable)": ((10, 4, [0x3ff, 2, 3, 4], [dict(write_capable=True, we_granularity=4)]), [r"reg \[9:0\] mem", r"mem\[adr\]\[7:4\]"]),
+        "width12,gran8 (one enable bit for the low byte, top four bits have no enable)": ((12, 4, [0xfff, 2, 3, 4], [dict(write_capable=True, we_granularity=8)]), [r"reg \[11:0\] mem", r"mem\[adr\]\[7:0\] <= dat_w\[7:0\]"]),
+        "width9,gran8,rf": ((9, 4, [0x1ff, 2, 3, 4], [dict(write_capable=True, we_granularity=8, mode=READ_FIRST)]), [r"mem\[adr\]\[7:0\]"]),
         "width10,gran4,rf": ((10, 4, [0x3ff, 2, 3, 4], [dict(write_capable=True, we_granularity=4, mode=READ_FIRST, has_re=True)]), [r"reg \[9:0\] mem_dat0"]),
         "width3,init": ((3, 4, [7, 1, 5, 2], [dict(write_capable=True)]), [r"reg \[2:0\] mem", r"readmemh"]),
         "width1,init": ((1, 4, [1, 0, 1, 1], [dict(write_capable=True)]), [r"reg \[0:0\] mem", r"readmemh"]),
